@@ -606,9 +606,16 @@ def setup_ref_dir():
     """
     if os.environ.get('VERIF_REF_DIR'):
         return
-    d = os.path.join(core.VERIF, '.cache', 'refs-' + tree_hash())
+    base = os.path.join(core.VERIF, '.cache')
+    d = os.path.join(base, 'refs-' + tree_hash())
     os.makedirs(d, exist_ok=True)
+    os.utime(d, None)
     os.environ['VERIF_REF_DIR'] = d
+    # disk is limited: keep the directories of the eight most recently used trees only
+    import shutil
+    olds = sorted((os.path.join(base, n) for n in os.listdir(base) if n.startswith('refs-')), key=os.path.getmtime, reverse=True)
+    for p in olds[8:]:
+        shutil.rmtree(p, ignore_errors=True)
 
 _REF_MEMO: dict[str, list] = {}
 
